@@ -10,7 +10,7 @@ import subprocess
 import sys
 
 VERIF = os.path.dirname(os.path.dirname(os.path.abspath(__file__)))
-WT = "/var/tmp/verif_selftest_wt"
+WT = os.environ.get("SELFTEST_WT", "/var/tmp/verif_selftest_wt")
 
 
 def sh(cmd, **kw):
